@@ -178,7 +178,7 @@ func runC09(c *vkit.Ctx, lab *Lab, r *rand.Rand, i int) {
 	decoysInVisited := 0
 	for root, dg := range res.Pre {
 		for rel, e := range dg {
-			if e.Type != "f" {
+			if e.Type != "f" && e.Type != "l" {
 				continue
 			}
 			p := filepath.Join(root, rel)
@@ -321,8 +321,8 @@ func StaleOracle(lab *Lab, res *RunResult, a *Analysis, own *Owned, prot *Protec
 	}
 	for root, dg := range res.Pre {
 		for rel, e := range dg {
-			if e.Type != "f" {
-				continue
+			if e.Type != "f" && e.Type != "l" {
+				continue // symbolic links are directory entries like regular files
 			}
 			p := filepath.Join(root, rel)
 			if !visited[filepath.Dir(p)] || !strings.Contains(filepath.Base(p), ".snap") || addrFile[p] {
